@@ -637,7 +637,7 @@ static void case_reset(void)
 {
         cur_failed = false; CUR_STEP = 0; PHASE = 0; READ_GATE = true;
         ON_READ = NULL; ON_READ_REFUSED = NULL; ON_WRITE = NULL; ON_UNIT = NULL; ON_PHASE = NULL; ON_LOCK = NULL;
-        POLICY = NULL; VPOLICY = NULL; NEXT_WORLD_USE_MUTEX = false;
+        POLICY = NULL; VPOLICY = NULL; NEXT_WORLD_USE_MUTEX = false; NOISE_CMD = NULL; NOISE_PM = 0;
         MX_DEPTH = 0; MX_LOCKS = MX_UNLOCKS = 0; MX_FAIL_LOCK_AT = MX_FAIL_UNLOCK_AT = -1;
         sch_eager(&RS); sch_eager(&WS);
         in_reset(); out_reset(); units_reset(); ev_reset();
@@ -784,9 +784,24 @@ void io_describe(FILE *f)
         fprintf(f, "output (%zu bytes%s): \"%s\"\n", OUTN, from ? ", tail" : "", b);
 }
 
+/* background event traffic for checks whose subject is the command FSM: an unsolicited READ / TEST of a dedicated command is formatted and
+ * flushed while the line under test is parsed and answered (state shared between the two machines by mistake then shows up in those checks) */
+struct cat_command *NOISE_CMD; unsigned NOISE_PM; static prng_t NZ = { 0x9E3779B97F4A7C15ULL };
+void w_noise_group(unsigned per_mille)
+{
+        struct cat_command *a = w_group(1, false);
+        a[0].name = xstr("~N"); a[0].description = xstr("noise");
+        struct cat_variable *v = w_vars(&a[0], 3);
+        v[0].type = CAT_VAR_UINT_DEC; { uint8_t *d = w_vdata(&v[0], 1); *d = 42; }
+        v[1].type = CAT_VAR_BUF_HEX; { uint8_t *d = w_vdata(&v[1], 24); for (int i = 0; i < 24; i++) d[i] = (uint8_t)(0xA0 + i); }
+        v[2].type = CAT_VAR_BUF_STRING; v[2].access = CAT_VAR_ACCESS_READ_ONLY; { uint8_t *d = w_vdata(&v[2], 10); memcpy(d, "n\"z,\\q", 7); }
+        NOISE_CMD = a; NOISE_PM = per_mille;
+        pr_seed(&NZ, CUR_SEED ^ 0x4E5A, (uint64_t)CUR_CASE);
+}
 long run_quiet(long maxsteps)
 {
         for (long i = 0; i < maxsteps; i++) {
+                if (NOISE_CMD && NOISE_PM && INPOS < INLEN && pr_n(&NZ, 1000) < NOISE_PM) { (void)cat_trigger_unsolicited_event(W.at, NOISE_CMD, pr_pct(&NZ, 60) ? CAT_CMD_TYPE_READ : CAT_CMD_TYPE_TEST); CNT("noise_events_triggered"); }
                 cat_status s = svc();
                 if (s == CAT_STATUS_OK && INPOS >= INLEN) return i + 1;
         }
